@@ -81,6 +81,56 @@ def cpu_guard(seconds):
         signal.signal(signal.SIGVTALRM, old)
 
 
+class StepBudget(Exception):
+    pass
+
+
+def count_steps(fn, budget, path_part='soupsieve'):
+    """Run fn() counting 'line' events in frames whose file path contains `path_part`; StepBudget when exceeded."""
+    count = [0]
+
+    def tracer(frame, event, arg):
+        if event == 'call' and path_part in frame.f_code.co_filename:
+            def local(frame, event, arg):
+                if event == 'line':
+                    count[0] += 1
+                    if count[0] > budget:
+                        raise StepBudget()
+                return local
+            return local
+        return None
+    old = sys.gettrace()
+    sys.settrace(tracer)
+    try:
+        fn()
+    finally:
+        sys.settrace(old)
+    return count[0]
+
+
+def guarded_call(fn, cpu_s=10, confirm_steps=3_000_000):
+    """('ok', value) | ('raise', exception) | ('hang', None) | ('slow', None).
+    A call that burns `cpu_s` seconds of CPU is interrupted and run again under the line-event counter: only exceeding
+    `confirm_steps` traced steps inside soupsieve is a hang (clock-free verdict); otherwise it was merely slow."""
+    try:
+        with cpu_guard(cpu_s):
+            return ('ok', fn())
+    except CallTimeout:
+        pass
+    except Exception as e:  # noqa: BLE001
+        return ('raise', e)
+    try:
+        with cpu_guard(max(60, cpu_s * 12)):
+            count_steps(fn, confirm_steps)
+        return ('slow', None)
+    except StepBudget:
+        return ('hang', None)
+    except CallTimeout:
+        return ('slow', None)
+    except Exception:  # noqa: BLE001
+        return ('slow', None)
+
+
 class BudgetExhausted(Exception):
     """Raised inside a Hypothesis body to stop generation when the time budget is used up."""
 
